@@ -22,6 +22,7 @@ def _chain(c, dt, CoinState, genesis, n, step, pk, tag=b"", cs=None, parent=None
 
 def stage(chk, quick, rng, pid):
     t0 = time.time()
+    sk.restore_cfg()                          # whatever model-sized configuration an earlier stage left behind
     real = sk.read_real_constants()
     cfg = sk.Cfg(stub_scrypt=True, **real)          # real period / timespan / subsidy constants, stand-in scrypt, no checkpoints
     sk.apply_cfg(cfg)
